@@ -244,6 +244,21 @@ Proof.
           apply trunc_cons. }
         destruct catch; simpl; (split; [eapply same_above; eassumption|simpl; rewrite Hl; reflexivity]).
       * destruct catch; exact I.
+    + (* KSource: Run restores the stacks by itself (nothing is pushed before it); the defer puts cur / pc back *)
+      set (c1 := jump 10 0 c).
+      pose proof (run_frame body HF c1) as HR.
+      assert (Hc1 : above c0 c1).
+      { destruct Ha as (d & s & a & H1 & H2 & H3). exists d, s, a. subst c1. simpl. auto. }
+      destruct (exec_list (capture c1) body c1) as [c2|c2|]; simpl.
+      * destruct HR as [Hab Hl]. split; [|simpl; rewrite Hl; reflexivity].
+        pose proof (above_trans _ _ _ Hc1 Hab) as (d & s & a & H1 & H2 & H3).
+        exists (0%Z :: d), s, a. simpl. rewrite H1, H2, H3. auto.
+      * destruct HR as [Hss Hl].
+        assert (Hab : above c0 (jump (cur c) (pc c) (jump (v_cur (capture c1)) fsize (restore (capture c1) c2)))).
+        { destruct Hss as (H1 & H2 & H3). destruct Hc1 as (d & s & a & H4 & H5 & H6).
+          exists d, s, a. simpl in *. rewrite H1, H2, H3. auto. }
+        destruct catch; simpl; (split; [assumption|simpl; rewrite Hl; reflexivity]).
+      * destruct catch; exact I.
   - (* AGenLoop *)
     intros body HF base c0 c Hs Ha. simpl. rewrite inner_exec_list.
     set (c1 := mkCtrl (dstk c) (sstk c) (astk c) (S (ldepth c)) (cur c) (pc c)).
@@ -306,6 +321,12 @@ Proof.
     unfold same_ctrl, same_stacks, restore, capture, jump in *. simpl in *.
     rewrite H1, H2, H3. subst c1. simpl. rewrite !trunc_self.
     repeat split; try assumption. apply trunc_cons.
+  - set (c1 := jump 10 0 c) in *.
+    pose proof (run_frame body (all_ok_list body) c1) as HR.
+    destruct (exec_list (capture c1) body c1) as [c2|c2|]; try discriminate.
+    inversion H; subst c'; clear H. destruct HR as [(H1 & H2 & H3) Hl].
+    unfold same_ctrl, same_stacks, restore, capture, jump in *. simpl in *.
+    rewrite H1, H2, H3. subst c1. simpl. repeat split; try assumption.
 Qed.
 
 Lemma catch_false : forall r, catch_out false r = r.
@@ -335,6 +356,12 @@ Definition c_rest : ctrl := mkCtrl [] [0%Z] [] 0 1%Z 5%Z.
 
 (* regression witness of the former finding evalfunction-no-restore (fixed in /repo by 4b37dbf):
    a failed EvalFunction now hands back the state it was entered with *)
+(* SourceExpressions called at rest by the host (SourceStream / SourceFile): a failed load leaves the
+   interpreter exactly as it was, pc included *)
+Example source_at_rest_witness :
+  exec (capture c_rest) (AReenter KSource false [APush SScope 3; APush SData 4; AJump 10 7; AFail]) c_rest = Err c_rest.
+Proof. vm_compute. reflexivity. Qed.
+
 Example evalfn_restores_witness :
   exec (capture c_rest) (AReenter KEvalFn false [AFail]) c_rest = Err c_rest.
 Proof. vm_compute. reflexivity. Qed.
